@@ -68,6 +68,9 @@ def ensureKid (P : Prims) (K : KeyEnv) (k : Key) : Except Err Key :=
   if k.dict.contains "kid" then .ok k
   else do pure { k with dict := k.dict.set "kid" (.str (← thumbprint P K k)) }
 
+/-- `KeySet.__init__(keys)`: `for key in keys: key.ensure_kid()` — nothing else happens to a key or its kid. -/
+def keySetInit (P : Prims) (K : KeyEnv) (ks : List Key) : Except Err (List Key) := ks.mapM (ensureKid P K)
+
 /-- The random pick of `guess_key` for a key set without kid (`pick_random_key`, `ensure_kid`, `set_kid`). -/
 def pickRandom (P : Prims) (E : Env) (K : KeyEnv) (ks : List Key) (headers : JVal) : Except Err (Key × Option JVal) := do
   let algv ← pyGetItemStr headers "alg"
